@@ -59,7 +59,11 @@ def cache_documents(prj: Project):
     """-> {case: JSON text} of a small report written by the interpreted writer, with the version field varied"""
     rl = ReportLab(prj)
     rep = rl.sample(False, current_version(prj))
-    doc = json.loads(rl.write(rep, True))
+    try:
+        doc = json.loads(rl.write(rep, True))
+    except ValueError as e:
+        # the writer's own defect (decided by C08's round trip); nothing about the cache can be observed on such a document
+        raise Unknown(f"the document the interpreted writer produces is not valid JSON ({e})")
     out = {"running version": json.dumps(doc)}
     d = dict(doc)
     d["version"] = "0.0.1-other"
